@@ -26,16 +26,28 @@ ASSUMPTIONS = ['scipy MVN CDF is a randomised integrator (8e-6 run-to-run noise)
 def cases(seed, tier):
     rng = rng_for(seed, 'C13')
     out = []
-    reps = 28 if tier == 'quick' else 380
+    reps = 28 if tier == 'quick' else 1000
     for r in range(reps):
         t = mv.random_table_spec(rng, tier, n=int(rng.choice([200, 1000])))
         out.append({'mode': 'fitted', 'table': t, 'config': str(rng.choice(['class', 'name', 'dict', 'instance', 'default'],
                                                                            p=[.3, .2, .3, .1, .1])),
                     'seed': int(rng.integers(1 << 31)), 'cdf_rows': 24 if tier == 'quick' else 40})
-    for r in range(10 if tier == 'quick' else 120):
+    for r in range(10 if tier == 'quick' else 600):
         out.append({'mode': 'synthetic', 'd': int(rng.integers(2, 7)), 'seed': int(rng.integers(1 << 31)),
                     'cdf_rows': 30})
     return out
+
+
+def _same_density(a, b):
+    """Densities agree: compared in log space, because far-tail densities (1e-27) amplify the last-bit
+    differences of batched vs single-row BLAS sums in the marginal CDFs (observed 3.5e-9 relative)."""
+    a, b = np.asarray(a, dtype=float), np.asarray(b, dtype=float)
+    if a.shape != b.shape:
+        return False
+    with np.errstate(all='ignore'):
+        la, lb = np.log(a), np.log(b)
+        ok = (a == b) | (np.isnan(a) & np.isnan(b)) | (np.abs(la - lb) <= 1e-9 * (1 + np.abs(la)))
+    return bool(np.all(ok))
 
 
 def _pdf(ctx, model, X, where, probe='pdf.call'):
@@ -108,7 +120,7 @@ def _check_pdf(ctx, model, Q, S, where):
             q = _pdf(ctx, model, arg, dict(where, representation=name), 'pdf.representation-invariance')
         if q is None:
             continue
-        ctx.check(q.shape == p.shape and np.allclose(q, p, rtol=1e-9, atol=0, equal_nan=True),
+        ctx.check(_same_density(q, p),
                   'pdf.representation-invariance', 'C13:density-depends-on-representation',
                   lambda: dict(where, representation=name, a=p[:3], b=q[:3]))
     rows = rng.choice(len(Q), size=min(6, len(Q)), replace=False)
@@ -118,13 +130,13 @@ def _check_pdf(ctx, model, Q, S, where):
             q = _pdf(ctx, model, arg, dict(where, representation=name), 'pdf.row-independence')
             if q is None:
                 continue
-            ctx.check(q.shape == (1,) and np.isclose(q[0], p[i], rtol=1e-9, atol=0, equal_nan=True),
+            ctx.check(q.shape == (1,) and _same_density(q, p[i:i + 1]),
                       'pdf.row-independence', 'C13:row-result-depends-on-batch',
                       lambda: dict(where, representation=name, row=int(i), alone=q, in_batch=p[i]))
     sub = Q.iloc[rng.permutation(len(Q))[:3]]
     q = _pdf(ctx, model, sub, where, 'pdf.row-independence')
     if q is not None:
-        ctx.check(np.allclose(q, p[[Q.index.get_loc(ix) for ix in sub.index]], rtol=1e-9, atol=0, equal_nan=True),
+        ctx.check(_same_density(q, p[[Q.index.get_loc(ix) for ix in sub.index]]),
                   'pdf.row-independence', 'C13:row-result-depends-on-batch', lambda: dict(where, representation='batch of 3'))
 
 
